@@ -94,7 +94,9 @@ class SchemaGen:
             return str(r.randint(int(lo), int(max(lo, min(hi, lo + 100)))))
         if t == "number":
             lo = spec.get("minimum", 0)
-            return str(lo + r.choice([0, 1, 2.5]))
+            v = lo + r.choice([0, 1, 2.5])
+            # the same value written as an integer or as a float (1 / 1.0): both are legal and load differently
+            return str(float(v)) if r.random() < 0.4 else (str(int(v)) if float(v).is_integer() else str(v))
         if t == "boolean":
             return r.choice(["TRUE", "FALSE"])
         return None
